@@ -89,6 +89,9 @@ Ret(ev, s) ==
          \* Thread that has not been joined fails (and leaves the running thread alone)
          [] f = "join" -> IF ev.r \in s.ends /\ (s.exp[t] = -1 \/ ev.r = s.exp[t]) THEN { e } ELSE {}
          [] f = "restart" -> IF ev.r = 0 THEN { e } ELSE {}
+         \* a start() whose thread could not be created reports failure and leaves the Thread startable
+         [] f = "startf" -> IF ev.r = 0 THEN { e } ELSE {}
+         [] f = "startagain" -> IF ev.r = 1 THEN { e } ELSE {}
          [] OTHER -> { e }
 
 \* the instant a timed wait of thread t gives up although the thread could have been released
